@@ -1,13 +1,14 @@
 ------------------------------- MODULE Props -------------------------------
 (***************************************************************************)
 (* The twenty properties C01..C20 as predicates over explicit state        *)
-(* records; dispatch for the trace spec (CheckStep) and accumulators.      *)
-(* `Want` (a string of property ids) is supplied by the extending module.  *)
+(* records; dispatch for the trace spec (CheckStepP) and accumulators.     *)
 (***************************************************************************)
-EXTENDS PropsPanic
+EXTENDS PropsPanic, PropsLedger
 
-Acc0 == [c15 |-> C15Acc0]
-AccNext(acc, pre, e, post) == [c15 |-> C15AccNext(acc.c15, pre, e, post)]
+Acc0 == [c15 |-> C15Acc0, c02 |-> C02Acc0]
+AccNext(acc, pre, e, post) ==
+  [c15 |-> C15AccNext(acc.c15, pre, e, post),
+   c02 |-> C02AccNext(acc.c02, pre, e, post)]
 
 \* invariants evaluated on a freshly reset state
 CheckInvP(want, s, e, line) == TRUE
@@ -15,4 +16,10 @@ CheckInvP(want, s, e, line) == TRUE
 CheckStepP(want, pre, e, post, acc, line) ==
   /\ (want["C15"]) => C15(pre, e, post, acc.c15, line)
   /\ (want["C14"]) => C14Pause(pre, e, post, line)
+  /\ (want["C01"]) => C01(pre, e, post, line)
+  /\ (want["C02"]) => C02(pre, e, post, acc.c02, line)
+  /\ (want["C03"]) => C03(pre, e, post, line)
+  /\ (want["C06"]) => C06(pre, e, post, line)
+  /\ (want["C16"]) => C16(pre, e, post, line)
+  /\ (want["C17"]) => C17(pre, e, post, line)
 =============================================================================
